@@ -98,6 +98,11 @@ pub(crate) enum SymbolPlacement<'data> {
 
     /// Symbol will point to the start of the first loadable segment.
     LoadBaseAddress,
+
+    /// Symbol will point to the end of the TLS segment, including the padding that rounds the
+    /// segment's size up to its alignment. On x86-64 that's the address the thread pointer
+    /// corresponds to, so the symbol's TP-relative offset is zero.
+    TlsSegmentEnd,
 }
 
 /// Result of parsing a defsym-style expression like "0x1000", "symbol", or "symbol+0x40".
